@@ -21,6 +21,8 @@ func main() {
 		cmdPack()
 	case "front":
 		cmdFront()
+	case "views":
+		cmdViews()
 	case "resolve":
 		cmdResolve()
 	default:
